@@ -109,6 +109,12 @@ func (e *Engine) UpdateIsearch() {
 // it does not produce or tries to match against completions,
 // but uses a minibuffer similarly to incremental search mode.
 func (e *Engine) NonIsearchStart(name string, repeat, forward, substring bool) {
+	// The incremental search has the minibuffer: starting (and then stopping)
+	// a non-incremental one would take it away while it is still being used.
+	if e.keymap.Local() == keymap.Isearch {
+		return
+	}
+
 	if repeat {
 		e.isearchBuf = new(core.Line)
 		e.isearchBuf.Set([]rune(e.isearchLast)...)
@@ -129,6 +135,10 @@ func (e *Engine) NonIsearchStart(name string, repeat, forward, substring bool) {
 
 // NonIsearchStop exits the non-incremental search mode.
 func (e *Engine) NonIsearchStop() {
+	if e.keymap.Local() == keymap.Isearch {
+		return
+	}
+
 	e.isearchLast = string(*e.isearchBuf)
 	e.isearchBuf = nil
 	e.IsearchRegex = nil
